@@ -47,6 +47,8 @@ def tla_set(xs):
 UNIVERSES = {
     "small": dict(nodes=["n1", "n2", "n3"], links=["l1", "l2"], origs=["o1", "r1"], ramps=["r1"], dests=["d1", "d2"]),
     "tiny": dict(nodes=["n1", "n2"], links=["l1", "l2"], origs=["o1", "r1"], ramps=["r1"], dests=["d1"]),
+    "near4": dict(nodes=["n1", "n2", "n3", "n4"], links=["l1", "l2", "l3", "l4", "l5", "l6"], origs=["o1", "o2", "o3", "o4", "r1", "r2", "r3", "r4"],
+                  ramps=["r1", "r2", "r3", "r4"], dests=["d1", "d2", "d3", "d4"]),
     "valid4": dict(nodes=["n1", "n2", "n3", "n4"], links=["l1", "l2", "l3"], origs=["o1", "r1"], ramps=["r1"], dests=["d1", "d2"]),
 }
 
@@ -66,7 +68,12 @@ def transitions(profile: str, universe: str, depth: int, maxpath: int = 3, model
     cfg.write_text(CFG.format(nodes=tla_set(u["nodes"]), links=tla_set(u["links"]), origs=tla_set(u["origs"]),
                               ramps=tla_set(u["ramps"]), dests=tla_set(u["dests"]), depth=depth, profile=profile,
                               maxpath=maxpath, **model))
-    res = run_tlc("MC_Build.tla", cfg=str(cfg), workers=1, heap="8g", timeout=3 * 3600, tag=key)
+    env = {"SHAPES_FILE": ""}
+    if profile == "near":
+        import dyncases
+        sp, _ = dyncases.shapes(*{3: (3, 3), 4: (4, 4), 5: (4, 5)}[maxpath])
+        env = {"SHAPES_FILE": str(sp)}
+    res = run_tlc("MC_Build.tla", cfg=str(cfg), env=env, workers=1, heap="8g", timeout=3 * 3600, tag=key)
     if res["rc"] not in (0,):
         raise MachineryError("MC_Build: the specification itself violates a property or failed:\n" + tlc_error_excerpt(res["out"], 40))
     tr = printed(res["out"], "TRANS")
@@ -103,7 +110,9 @@ PLANS = {
     "C08": dict(quick=[("cache", "small", 3, 3)], thorough=[("cache", "small", 4, 3), ("path", "tiny", 2, 4)]),
     "C09": dict(quick=[("path", "small", 1, 4), ("cache", "small", 2, 3), ("path", "tiny", 2, 2)],
                 thorough=[("path", "small", 1, 6), ("path", "small", 2, 3), ("cache", "small", 4, 3)]),
-    "C06": dict(quick=[("valid", "small", 3, 3)], thorough=[("valid", "small", 4, 3), ("valid", "valid4", 3, 3)]),
+    # ("near", universe, extra calls, shape bound): every valid shape <= (3,3)/(4,4)/(4,5) + every single further call
+    "C06": dict(quick=[("valid", "small", 3, 3), ("near", "near4", 1, 4)],
+                thorough=[("valid", "small", 4, 3), ("valid", "valid4", 3, 3), ("near", "near4", 1, 5), ("near", "near4", 2, 3)]),
 }
 
 
